@@ -104,13 +104,8 @@ for prop, plan in PLAN.items():
             src = ast.unparse(node) + "\n"
             try:
                 signal.alarm(25)
-                code, cb = terms.function_term(P, f, None, **OPTS)
-                sb = terms.Builder(None, None, {}, **{kk: v for kk, v in OPTS.items() if kk not in ("inline_depth", "inline_new")})
-                sb.module_names = {n for n in list(f.module.imports) if (P.resolve(f.module.name, n) or ("",))[0] in ("module", "ext")}
-                spec = sb.run(strip_doc(ast.parse(src).body[0].body))
-                none = terms.app("const", "None")
-                a_, b_ = (none if code is None else code), (none if spec is None else spec)
-                ok = a_ is not nf.BOTTOM and nf.equal(a_, b_) and set(cb.stores) == set(sb.stores) and all(nf.equal(cb.stores[x], sb.stores[x]) for x in cb.stores)
+                terms.function_term(P, f, None, **OPTS)      # raises Opaque when the function is outside the fragment
+                ok = specs.equivalent(P, f, src, **OPTS)
                 signal.alarm(0)
             except (Exception, KeyboardInterrupt) as e:
                 signal.alarm(0)
